@@ -126,7 +126,14 @@ func DecodePointer(reader io.Reader) (*Pointer, error) {
 // blob's data will be returned, along with a parse error.
 func DecodeFrom(reader io.Reader) (*Pointer, io.Reader, error) {
 	buf := make([]byte, blobSizeCutoff)
-	n, err := reader.Read(buf)
+	// A single Read() may return only part of what the stream holds (pipes
+	// deliver data as it is written): fill the buffer, so that a pointer
+	// arriving in pieces is still recognised and the first piece of other
+	// content is not mistaken for all of it.
+	n, err := io.ReadFull(reader, buf)
+	if err == io.ErrUnexpectedEOF {
+		err = io.EOF
+	}
 	buf = buf[:n]
 
 	var contents io.Reader = bytes.NewReader(buf)
